@@ -22,7 +22,7 @@ from . import c08
 PROPERTY = 'C11'
 RULE = ('Hypothesis-generated histories (as C08, with at least one read and one send where possible) x all 8 subsets '
         'of {logfile, logfile_read, logfile_send} x bytes|unicode x {pty, fd, socket, popen}, plus interact() sessions '
-        'with log files attached, plus finished children drained in small reads (a quarter of the unicode ones stop inside a character); recording log objects compared with the model transcript.  Non-trivial: >= 2 reads '
+        'with log files attached, plus ascii/latin-1 objects on all four transports asked to send text the codec cannot encode or to write into a closed pipe (the request is logged all the same), plus finished children drained in small reads (a quarter of the unicode ones stop inside a character); recording log objects compared with the model transcript.  Non-trivial: >= 2 reads '
         'and >= 2 sends interleaved with >= 2 logs set, or an interact() session with a log attached.  Distinct by '
         'hash of the case.')
 ASSUMPTIONS = [
